@@ -1,77 +1,16 @@
+import I18n.Model.MoKit
 /-
 Model of `lib/moparser.py` (`Parser.__init__/_parse/_read_ints/_parse_entry`) and of the part of
 `lib/check/__init__.py: Checker.check` that loads an MO file and maps the loader's exceptions to tags.
-Core Lean only.  The model follows the Python statement by statement; Python's partial operations
+Core Lean only.  The primitives (error type, codec parameter, `slice`, `unpack`, `split`, `bytesLt`, `findCharset`,
+`Entry`, …) live in `I18n/Model/MoKit.lean` and are shared with the definitions regenerated from the source
+(`I18n/Generated/MoParser.lean`; `Props/C08Tie.lean` proves the two equal).  The model follows the Python statement by statement; Python's partial operations
 (`struct.unpack` on a slice of the wrong size, tuple unpacking, `bytes < None`, `assert`) are explicit
 `Err.crash` outcomes, so "cannot happen" is a theorem (Props/C09 `parse_total_closed`), not a modelling choice.
 
 Text decoding is a parameter (`CodecDB`): the model never looks inside a codec.
 -/
 namespace I18n.Mo
-
-abbrev Bytes := List UInt8
-abbrev Text := List Char
-
-/-- message classes of `moparser.SyntaxError` -/
-inductive SynErr where
-  | truncated             -- 'truncated file'
-  | magic                 -- 'unexpected magic'
-  | major (n : Nat)       -- f'unexpected major revision number: {n}'
-  | msgidNotTerminated    -- 'msgid is not null-terminated'
-  | msgidNul              -- 'unexpected null byte in msgid'
-  | msgstrNotTerminated   -- 'msgstr is not null-terminated'
-  | msgstrNul             -- 'unexpected null byte in msgstr'
-  | duplicate             -- 'duplicate message definition'
-  | notSorted             -- 'messages are not sorted'
-  deriving DecidableEq, Repr
-
-/-- exceptions the code is not written to raise (each is a Python partial operation present in the source) -/
-inductive Crash where
-  | structError        -- struct.unpack: buffer size ≠ calcsize
-  | unpackValueError   -- `[a, b] = …` with the wrong number of items
-  | typeError          -- `bytes < None`
-  | assertion          -- `assert …`
-  deriving DecidableEq, Repr
-
-inductive Err where
-  | syntax (e : SynErr)   -- moparser.SyntaxError
-  | decode                -- UnicodeDecodeError
-  | crash (c : Crash)
-  deriving DecidableEq, Repr
-
-/-- Python codecs as seen by the parser.  Encoding names are ASCII strings, kept as bytes.
-    `decode name bs = none` is `UnicodeDecodeError`.  (`LookupError` cannot arise: `decode` is only called
-    with `'ASCII'` or with a name for which `is_ascii_compatible_encoding` just decoded successfully.) -/
-structure CodecDB where
-  /-- `lib.encodings.is_ascii_compatible_encoding(name)` -/
-  asciiCompatible : Bytes → Bool
-  /-- `bs.decode(name)` -/
-  decode : Bytes → Bytes → Option Text
-
-/-- `'ASCII'` -/
-def asciiName : Bytes := [65, 83, 67, 73, 73]
-/-- `'ISO-8859-1'` -/
-def latin1Name : Bytes := [73, 83, 79, 45, 56, 56, 53, 57, 45, 49]
-
-def leMagic : Bytes := [0xDE, 0x12, 0x04, 0x95]
-def beMagic : Bytes := [0x95, 0x04, 0x12, 0xDE]
-
-/-- `view[b:e]` for `0 ≤ b, e` (slices clamp) -/
-def slice (v : Bytes) (b e : Nat) : Bytes := (v.take e).drop b
-
-/-- one `I` item of `struct.unpack` -/
-def word (be : Bool) (a b c d : UInt8) : Nat :=
-  if be then ((a.toNat * 256 + b.toNat) * 256 + c.toNat) * 256 + d.toNat
-  else a.toNat + 256 * (b.toNat + 256 * (c.toNat + 256 * d.toNat))
-
-/-- `struct.unpack(endian + 'I' * n, buf)`: `struct.error` unless `len(buf) == 4 * n` -/
-def unpack (be : Bool) : Nat → Bytes → Except Err (List Nat)
-  | 0, [] => .ok []
-  | n + 1, a :: b :: c :: d :: rest =>
-    match unpack be n rest with
-    | .ok ws => .ok (word be a b c d :: ws)
-    | .error e => .error e
-  | _, _ => .error (.crash .structError)
 
 /-- `Parser._read_ints` -/
 def readInts (be : Bool) (view : Bytes) (at_ n : Nat) : Except Err (List Nat) :=
@@ -94,51 +33,9 @@ def read2 (be : Bool) (view : Bytes) (at_ : Nat) : Except Err (Nat × Nat) :=
   | .ok _ => .error (.crash .unpackValueError)
   | .error e => .error e
 
-/-- `bs.split(sep, k)` (at most `k` splits, from the left) -/
-def split (sep : UInt8) : Nat → Bytes → List Bytes
-  | _, [] => [[]]
-  | 0, b :: bs => [b :: bs]
-  | k + 1, b :: bs =>
-    if b = sep then [] :: split sep k bs
-    else match split sep (k + 1) bs with
-      | p :: ps => (b :: p) :: ps
-      | [] => [[b]]
-
-/-- `bs.split(sep)` -/
-def splitAll (sep : UInt8) : Bytes → List Bytes
-  | [] => [[]]
-  | b :: bs =>
-    if b = sep then [] :: splitAll sep bs
-    else match splitAll sep bs with
-      | p :: ps => (b :: p) :: ps
-      | [] => [[b]]
-
-/-- `a < b` on `bytes` -/
-def bytesLt : Bytes → Bytes → Bool
-  | [], [] => false
-  | [], _ :: _ => true
-  | _ :: _, [] => false
-  | a :: as, b :: bs => if a < b then true else if b < a then false else bytesLt as bs
-
 /-- `msgids == self._last_msgid`: a `list` compared with a `bytes` object — never equal.
     (This is the "duplicate message definition" test exactly as written: it is inert.) -/
 def pyListEqBytes (_ : List Bytes) (_ : Bytes) : Bool := false
-
-/-- `b'charset='` -/
-def charsetKey : Bytes := [99, 104, 97, 114, 115, 101, 116, 61]
-
-/-- `[ \t\n]` -/
-def isDelim (b : UInt8) : Bool := b == 32 || b == 9 || b == 10
-
-/-- `re.search(b'charset=([^ \t\n]+)', s)` → group 1: leftmost position where `charset=` is followed by
-    at least one non-delimiter; the group is the maximal run (greedy, no backtracking needed). -/
-def findCharset : Bytes → Option Bytes
-  | [] => none
-  | b :: bs =>
-    if charsetKey.isPrefixOf (b :: bs) then
-      let run := ((b :: bs).drop 8).takeWhile (fun c => !isDelim c)
-      if run.isEmpty then findCharset bs else some run
-    else findCharset bs
 
 /-- lines 134–148: which encoding the first entry selects -/
 def selectEncoding (db : CodecDB) (encoding : Option Bytes) (msgid msgstr : Bytes) : Bytes :=
@@ -151,38 +48,6 @@ def selectEncoding (db : CodecDB) (encoding : Option Bytes) (msgid msgstr : Byte
   match encoding with
   | none => asciiName
   | some e => if db.asciiCompatible e then e else asciiName
-
-inductive Body where
-  | singular (msgstr : Text)
-  | plural (msgidPlural : Text) (msgstrPlural : List Text)   -- `{i: s for i, s in enumerate(…)}`
-  deriving DecidableEq, Repr
-
-/-- the keyword arguments of `polib.MOEntry(**kwargs)` -/
-structure Entry where
-  msgid : Text
-  msgctxt : Option Text
-  body : Body
-  deriving DecidableEq, Repr
-
-structure MoFile where
-  entries : List Entry
-  possibleHiddenStrings : Bool
-  deriving DecidableEq, Repr
-
-def dec (db : CodecDB) (enc : Bytes) (b : Bytes) : Except Err Text :=
-  match db.decode enc b with
-  | some t => .ok t
-  | none => .error .decode
-
-def decAll (db : CodecDB) (enc : Bytes) : List Bytes → Except Err (List Text)
-  | [] => .ok []
-  | b :: bs =>
-    match dec db enc b with
-    | .error e => .error e
-    | .ok t =>
-      match decAll db enc bs with
-      | .error e => .error e
-      | .ok ts => .ok (t :: ts)
 
 /-- lines 155–170.  `*msgctxt, msgid = msgid.split(b'\x04', 1)`: the part AFTER the first EOT (the whole key
     when there is none) is bound to `msgid`, the part before it to `msgctxt`; `msgid` is decoded first. -/
